@@ -220,11 +220,17 @@ func c14Check(r *Run, pres []*c14Pres, window time.Duration, useDecorator bool, 
 				if !b.accepted {
 					continue
 				}
+				// which of the two was accepted first is unknown (a stalled call may be invoked first and accepted last):
+				// whichever it was, the later one returned at least a window after the earlier one was invoked
 				x, y := a, b
 				if y.invEv < x.invEv {
 					x, y = y, x
 				}
-				if y.ret < x.inv+window {
+				lastRet := x.ret
+				if y.ret > lastRet {
+					lastRet = y.ret
+				}
+				if lastRet < x.inv+window {
 					sig := "two messages with the same key were both let through within one retention window"
 					if x.wave == y.wave {
 						sig = "two concurrently arriving messages with the same key were both let through"
